@@ -168,20 +168,55 @@ def _dispatch_depth(node, loop):
     return depth
 
 
-def exponent_sign_sets(ix):
-    """{helper name: [sorted sign set, ...]} for the membership / equality tests against literal sets of '+' / '-' in
-    the exponent look-ahead (_get_possible_e) and in its consumer (_finalize_e), whatever their polarity."""
+def tokenizer_helpers(ix):
+    """The nested helpers of uncertainty_tokenizer, found by what they do (their names are local names):
+      'lookahead' (_get_possible_e)    looks ahead in the token stream it is given (`<param>.lookahead(...)`) without
+                                       consuming from it, and is called from the body of the tokenizer;
+      'consumer'  (_finalize_e)        consumes tokens from the stream it is given (`next(<param>)`);
+      'apply'     (_apply_e_notation)  the nested helper the consumer calls to fold the exponent into a token.
+    Returns {role: FuncInfo}; a role that cannot be found is an analysis error (exit 2), never a silent pass."""
     pe = ix.module(PE)
     tok = ix.func(PE, "uncertainty_tokenizer")
+    nested = [g for g in pe.all_functions if g.parent is tok and isinstance(g.node, ast.FunctionDef)]
+    params = lambda g: [a.arg for a in g.node.args.args]
+    calls = lambda node: [c for c in walk_local(node) if isinstance(c, ast.Call)]
+    consumes = lambda g: any(isinstance(c.func, ast.Name) and c.func.id == "next" and c.args and isinstance(c.args[0], ast.Name) and c.args[0].id in params(g) for c in calls(g.node))
+    looks = lambda g: any(isinstance(c.func, ast.Attribute) and c.func.attr == "lookahead" and isinstance(c.func.value, ast.Name) and c.func.value.id in params(g) for c in calls(g.node))
+    called_from = lambda g, node: any(isinstance(c.func, ast.Name) and c.func.id == g.name for c in calls(node))
+    roles = {}
+    la = [g for g in nested if looks(g) and not consumes(g) and called_from(g, tok.node)]
+    co = [g for g in nested if consumes(g)]
+    if len(la) == 1:
+        roles["lookahead"] = la[0]
+    if len(co) == 1:
+        roles["consumer"] = co[0]
+        ap = [g for g in nested if g is not co[0] and called_from(g, co[0].node)]
+        if len(ap) == 1:
+            roles["apply"] = ap[0]
+    missing = [r for r in ("lookahead", "consumer", "apply") if r not in roles]
+    if missing:
+        raise AnalysisError(f"uncertainty_tokenizer: nested helper(s) with role {missing} not found (exponent look-ahead / token consumer / exponent folding)")
+    return roles
+
+
+_ROLE_LABEL = {"lookahead": "_get_possible_e", "consumer": "_finalize_e"}
+
+
+def exponent_sign_sets(ix):
+    """{helper label: [sorted sign set, ...]} for the membership / equality tests against literal sets of '+' / '-' in
+    the exponent look-ahead (label _get_possible_e) and in its consumer (label _finalize_e), whatever their polarity."""
+    pe = ix.module(PE)
     consts = shape.module_constants(pe)
+    roles = tokenizer_helpers(ix)
     sets = {}
-    for f in [g for g in pe.all_functions if g.parent is tok and g.name in ("_get_possible_e", "_finalize_e")]:
+    for role, label in _ROLE_LABEL.items():
+        f = roles[role]
         for c in walk_local(f.node):
             if isinstance(c, ast.Compare) and len(c.ops) == 1 and isinstance(c.ops[0], (ast.In, ast.NotIn, ast.Eq, ast.NotEq)):
                 for side in (c.comparators[0], c.left):
                     vals = _literal_strings(side, consts)
                     if vals and set(vals) <= {"+", "-"}:
-                        sets.setdefault(f.name, []).append(vals)
+                        sets.setdefault(label, []).append(vals)
     return sets
 
 
@@ -194,7 +229,7 @@ def plus_minus_sign_rewritten(ix):
 def token_conservation_rule(ck, ix):
     """uncertainty_tokenizer rewrites the token stream.  Tokens taken with next(<stream>) are either syntax of the
     uncertainty notation (+ / - ( ) whose presence the branch guard has asserted by look-ahead) or content.  (1) every
-    token bound to a name reaches a yielded token (directly, as a field of a rebuilt token, or through _finalize_e);
+    token bound to a name reaches a yielded token (directly, as a field of a rebuilt token, or through the consumer helper);
     (2) a token that is consumed *conditionally* (only present for some inputs: the unary minus of '(-3 +/- 1)') is
     content and must be yielded as it is."""
     tok = ix.func(PE, "uncertainty_tokenizer")
@@ -263,6 +298,7 @@ def lookahead_offsets_rule(ck, ix):
         return None
 
     is_la = lambda c: isinstance(c, ast.Call) and isinstance(c.func, ast.Attribute) and c.func.attr == "lookahead" and c.args
+    exp_search = tokenizer_helpers(ix)["lookahead"].name      # the nested helper that searches the exponent, found by role
 
     def guard_of(node):
         """(offsets inspected by the conditions that hold at `node`, line of the innermost branch whose test inspects)"""
@@ -282,7 +318,7 @@ def lookahead_offsets_rule(ck, ix):
 
     n = 0
     for c in [c for c in walk_local(fn) if isinstance(c, ast.Call)]:
-        if call_name(c) == "_get_possible_e" and len(c.args) >= 2:
+        if isinstance(c.func, ast.Name) and c.func.id == exp_search and len(c.args) >= 2:
             la, line = guard_of(c)
             if not la:
                 continue
